@@ -193,7 +193,7 @@ func (g *appGen) genFlagList(label string) []uint32 {
 	return out
 }
 
-var langCodesValid = []string{"nor", "eng", "swa", "fra", "no", "en", "fr"}
+var langCodesValid = []string{"nor", "nor", "no", "swa", "swa", "sw", "fra", "fr", "fre", "fre", "eng", "en", "ger", "deu", "dut", "zh", "wel", "rum"}
 var langCodesBad = []string{"xx", "NOR", "English", "zzz", "", "n0r"}
 
 func (g *appGen) genSym(name string, sink bool) app.Sym {
@@ -764,7 +764,7 @@ func GenApp(t *rapid.T, o GenOpts) *app.App {
 	}
 	// translations
 	if o.Langs {
-		for _, code := range []string{"nor", "swa"} {
+		for _, code := range []string{"nor", "swa", "fra"} {
 			tr := app.Trans{Lang: code, Templates: map[string]string{}, Menus: map[string]string{}, Statics: map[string]string{}}
 			for _, n := range a.Nodes {
 				if g.chance(50, "trtpl") {
@@ -785,6 +785,21 @@ func GenApp(t *rapid.T, o GenOpts) *app.App {
 		}
 	}
 	return a
+}
+
+// genFirst gives the application an engine-level first function (engine.WithFirst) with a
+// constant, harmless answer. Only for checks that do not compare with the reference
+// interpreter or across serving modes: the function runs whenever an engine object starts
+// serving (once for a long-lived engine, at every request of a persisted session).
+func genFirst(t *rapid.T, a *app.App, pct int, flags bool) {
+	if !chancePct(t, pct, "first") {
+		return
+	}
+	f := &app.First{Content: []string{"", "first", "0"}[uniformN(t, 3, "firstcontent")]}
+	if flags && a.Cfg.FlagCount > 0 && chancePct(t, 40, "firstflag") {
+		f.FlagSet = []uint32{8 + uint32(uniformN(t, int(min(a.Cfg.FlagCount, 24)), "firstflagv"))}
+	}
+	a.Cfg.First = f
 }
 
 // ---------------------------------------------------------------------------
